@@ -27,6 +27,15 @@ CLAIMS = {
  "C09": ("inductive window invariant on the real queue code for all window sizes and all 256 ACK/NACK values in single queries; negotiated window from every SYN value",
          "window invariant stated in harness/gbn/c09.go; blocking behaviour of Send under withheld ACKs is covered only through the whole-endpoint runs of C01/C06",
          "solver-based inductive step over symbolic pre-state (z3 bit-vectors)"),
+ "C10": ("real client and server constructors run against each other on the virtual clock with symbolic fates for the first handshake packets of each direction, stale packets with symbolic bytes, three start orders and four window sizes, followed by a request/reply exchange: no crash, no silent hang, no foreign window, fault-free attempts succeed",
+         "bounds: faults<=3 per direction, <=2 stale packets of <=3 symbolic bytes, horizon 120 virtual s; a stray duplicate that tears the fresh connection down visibly is accepted (the statement's 'fails with an error' branch)",
+         "bounded symbolic execution of both endpoints (goroutine layer, discrete-event virtual time, symbolic fault schedule)"),
+ "C12": ("Close injected at several instants of virtual time by either/both sides, once or twice, with blocked Send/Recv, healthy or silent transport, keep-alive on/off: bounded return, failing calls, peer notification, and an empty set of goroutines and tickers at quiescence",
+         "bounds: window<=2, 5 close instants, default schedule (+1 deviation and one symbolic packet fate in thorough)",
+         "bounded symbolic execution with engine-owned scheduler; leak check on the engine's goroutine/timer tables"),
+ "C13": ("keep-alive runs on the virtual clock: transport silenced at symbolic idle offsets with 0..N+1 queued messages must close within ping+pong+slack; a healthy idle pair with latency below the pong timeout survives 10 virtual minutes",
+         "three ping/pong settings, window<=3, default schedule; slack 20 s for boosted resend-sync waits",
+         "bounded symbolic execution with discrete-event virtual time"),
  "C14": ("all (length, chunk size) pairs up to the bound with symbolic contents, sequences of two messages, deadlines expiring at every chunk boundary on the virtual clock",
          "payload<=9, chunk<=10 (thorough); one known finding (Send timing out mid-message) reported as KNOWN-FINDING",
          "solver-based bounded symbolic execution (case split on lengths, symbolic contents)"),
@@ -39,6 +48,9 @@ CLAIMS = {
  "C17": ("mnemonic codec on a fully symbolic 112-bit entropy and on 10 symbolic word indices (single path each through guarded if-conversion), direction bits for an arbitrary id, SID derivation under ideal hashes/ECDH",
          "inverse word-table lemma checked concretely per run; ideal SHA-512/HMAC/ECDH",
          "solver-based symbolic execution with guarded if-conversion (bit-vector validity queries)"),
+ "C18": ("race mode: pairs of operations on ticker, timeout manager and queue from two goroutines under all schedules within 2 deviations, plus a live keep-alive pair with four application goroutines; vector-clock happens-before detection, channel-misuse panics, deadlocks",
+         "per-channel vector clocks over-approximate happens-before (missed races possible, no false races); sequentially consistent memory; <=2 schedule deviations",
+         "bounded schedule exploration in the symbolic engine with happens-before race detection"),
  "C19": ("round trip and canonical re-encoding of all six GBN packet types and MsgData with all field values symbolic and payloads up to 64 symbolic bytes",
          "payload length bound 8 quick / 64 thorough",
          "solver-based bounded symbolic execution (z3)"),
